@@ -977,3 +977,10 @@ def replay(res, path):
   if not idem and rep["kindc"] == "U":
     print("class :", idempotence_fingerprint(L, node, uni.deps(), o, steps, o1, o2))
   return 0 if (why is None and idem) else 1
+
+
+def generate():
+  """Called by harness/setup.py before the Coq build (coq/Generated is not committed)."""
+  common.bootstrap_pytype()
+  _, _, _, coq = translate()
+  common.write_if_changed(os.path.join(common.COQ, "Generated", "C11_Passes.v"), coq)
